@@ -337,6 +337,122 @@ def check_native(case):
     return dict(nt=abs(case["dt_us"]) > 60 * 10**6, cls=cls, ratio=ratio)
 
 
+# ------------------------------------------------------------------ histories
+
+
+HIST_OPS = ["attach", "attach", "attach", "orbit_propagate", "new", "copy", "sweep"]
+_HIST_DT = gt._mix((6, gt.uniform_int(-3 * DAY_US, 3 * DAY_US)), (2, gt.uniform_int(-SPAN_US, SPAN_US)),
+                   (1, st.sampled_from([0, 60 * 10**6, -DAY_US])))
+
+
+@st.composite
+def history_case(draw):
+    """2-3 element sets, 2-3 propagator objects of each kind, 3-10 operations.  The operation
+    plan comes from one uniform draw (two decimal digits per field): Hypothesis likes to copy
+    one step's draws over another's, which would make all steps alike."""
+    n = draw(st.integers(2, 3))
+    tles = [draw(gt.sgp4_fields("native")) for _ in range(n)]
+    if draw(st.integers(0, 1)):
+        # successive element sets of ONE object: same catalogue number and designator
+        for f in tles[1:]:
+            f["cat"], f["desig"] = tles[0]["cat"], tles[0]["desig"]
+    nops = draw(st.integers(3, 10))
+    plan = draw(gt.uniform_int(0, 10**60 - 1))
+    ops = []
+    for k in range(nops):
+        r = plan // 10 ** (6 * k) % 10**6
+        ops.append(dict(op=HIST_OPS[r % 7], kind=("wrapper", "native")[r // 7 % 2], prop=r // 14 % 3,
+                        tle=r // 42 % 3, dt_us=draw(_HIST_DT)))
+    return dict(tles=tles, nprops=draw(st.integers(2, 3)), ops=ops)
+
+
+def check_history(case):
+    """Interprets the operation list on fresh objects; after EVERY operation every propagator that
+    has an orbit attached is propagated to that operation's probe offset and must give the
+    reference state of the element set currently attached to it."""
+    import numpy as np
+    from beyond.dates import Date
+    from beyond.io.tle import Tle
+    from beyond.propagators.sgp4 import Sgp4
+    from beyond.propagators.sgp4beta import Sgp4Beta
+
+    tles = case["tles"]
+    n = len(tles)
+    orbits = [Tle(tf.format_text(f)).orbit() for f in tles]
+    klass = dict(wrapper=Sgp4, native=Sgp4Beta)
+    props = {k: [klass[k]() for _ in range(case["nprops"])] for k in klass}
+    attached = {k: [None] * case["nprops"] for k in klass}
+    worst = 0.0
+    compared = 0
+    labels = set()
+
+    def probe(kind, j, dt_us, step):
+        nonlocal worst, compared
+        i = attached[kind][j]
+        f = tles[i]
+        mjd, us = target(f, dt_us)
+        date_dt = to_datetime(mjd, us)
+        err, rr, rv, sat = reference(f, mjd, us)
+        what = f"history-{kind}"
+        if err != 0:
+            try:
+                props[kind][j].propagate(Date(date_dt))
+            except Exception:
+                pass
+            return
+        if kind == "native":
+            if sat.method != "n" or sat.altp * sat.radiusearthkm < 220.001 or decayed_en_route(sat, dt_us):
+                return
+            ptol, vtol = 1e-2, 1e-2 * float(np.linalg.norm(rv) / np.linalg.norm(rr))
+        else:
+            ptol, vtol, _ = comparable(sat, dt_us, rr, rv)
+        sv = props[kind][j].propagate(Date(date_dt))
+        try:
+            ratio = compare(sv, date_dt, rr, rv, ptol, vtol, what=what)
+        except Violation as v:
+            raise Violation(v.kind, f"after step {step} ({case['ops'][step]['op']}): propagator {kind}#{j}, "
+                            f"attached to element set {i}: {v.msg}", **v.data) from None
+        worst = max(worst, ratio)
+        compared += 1
+
+    for step, op in enumerate(case["ops"]):
+        kind, j, i = op["kind"], op["prop"] % case["nprops"], op["tle"] % n
+        name = op["op"]
+        labels.add(f"op:{name}")
+        if name == "attach":
+            props[kind][j].orbit = orbits[i]
+            attached[kind][j] = i
+        elif name == "new":
+            props[kind][j] = klass[kind]()
+            attached[kind][j] = None
+        elif name == "copy":
+            # the orbit object is replaced by a copy (which carries a propagator of its own)
+            orbits[i] = orbits[i].copy()
+        elif name == "orbit_propagate":
+            # the documented route: the orbit is given the propagator and propagates itself
+            # (Sgp4Beta is not a Propagator subclass: wrapper only)
+            p = props["wrapper"][j]
+            orbits[i].propagator = p
+            attached["wrapper"][j] = i
+            mjd, us = target(tles[i], op["dt_us"])
+            try:
+                orbits[i].propagate(Date(to_datetime(mjd, us)))
+            except Exception:
+                if reference(tles[i], mjd, us)[0] == 0:
+                    raise
+        # invariant: every attached propagator answers for ITS element set
+        for k in klass:
+            for jj in range(case["nprops"]):
+                if attached[k][jj] is not None:
+                    probe(k, jj, op["dt_us"], step)
+    kinds_live = sum(1 for k in klass for jj in range(case["nprops"]) if attached[k][jj] is not None)
+    if kinds_live >= 2:
+        labels.add("two-or-more-attached")
+    if tles[0]["cat"] == tles[1]["cat"]:
+        labels.add("same-object")
+    return dict(nt=compared >= 3 and kinds_live >= 2, cls=sorted(labels), ratio=worst)
+
+
 FACETS = [
     Facet("wrapper_near_earth", case_strategy("near", ("direct", "direct", "timedelta")), check_wrapper, setup=_eop,
           rule="|offset| > 1 min, reference error code 0", quick=(6, 700), thorough=(16, 8000)),
@@ -349,4 +465,9 @@ FACETS = [
           check_wrapper, setup=_eop,
           rule="|offset| > 1 min; the orbit is copied, converted, or shares its propagator before propagating",
           quick=(6, 400), thorough=(16, 4000)),
+    Facet("history", lambda shard, tier: history_case(), check_history, setup=_eop,
+          rule=">= 3 states compared and >= 2 propagator objects attached at the end; after every operation "
+               "each attached propagator (Sgp4 and Sgp4Beta, 2-3 objects each, 2-3 element sets) must return the "
+               "reference state of the element set currently attached to it",
+          quick=(8, 100), thorough=(16, 1500)),
 ]
